@@ -1,17 +1,24 @@
 /-
 C19 — model of the process-global state touched by an XPath evaluation.
 
-Python sources transcribed (elementpath, tree with the two `fix:` commits of branch fix-c19):
+Python sources transcribed (elementpath, tree with the `fix:` commits of branches fix-c19 and
+fix-c19-2):
 
 * `elementpath/collations.py`
-    - `CollationManager.__init__`  (lines 83-130)  → `parseColl`
-    - `CollationManager.__enter__` (lines 132-152) → `enter`   (sequential) / `Thr.step` (threads)
-    - `CollationManager.__exit__`  (lines 154-160) → `exit`
-    - `_locale_collate_lock = threading.Lock()` (line 36) → `State.lock` (non-reentrant)
+    - `CollationManager.__init__`  → `parseColl`
+    - `CollationManager.__enter__` → `probe` (sequential) / `Thr.step` on `Br.probe` (threads):
+      under the lock, find out which locale serves the collation and restore at once
+    - `CollationManager._locale_call` (behind `strcoll` / `strxfrm` of a locale based manager)
+      → `useLoc` / `Thr.step` on `Br.use`: lock, switch, call, restore, unlock
+    - `CollationManager.__exit__`  → nothing global (only the manager forgets its locale)
+    - `_locale_collate_lock = threading.Lock()` → `State.lock` (non-reentrant)
 * the `with CollationManager(collation, self) as manager: <body>` call sites in
   `xpath2/_xpath2_functions.py`, `xpath31/_xpath31_functions.py`, `compare.py` → `evalEv`
-  (the body may contain further collation-using evaluations: `contains-token`, `index-of`,
-  `distinct-values`, `sort`, `deep-equal` evaluate their operands *inside* the `with` block)
+  (the body is any sequence of comparisons by this manager and further collation-using
+  evaluations: `contains-token`, `index-of`, `distinct-values`, `deep-equal` evaluate operands
+  inside the block, `index-of`/`distinct-values` stay suspended inside it while their consumer runs)
+* the protocol of the tree before fix-c19-2 (lock and locale kept for the whole `with` block) is
+  kept as `Scoped.enter`, the one before fix-c19 as `Pinned.enter` — records of F19b / F19 / F19c
 * `xpath30/_xpath30_functions.py` 1343-1374 (`fn:environment-variable`,
   `fn:available-environment-variables`) → `envVar`, `availEnvVars`
 * `etree.py` 32-74 (`SafeExpatParser`, `defuse_xml`) and `_xpath30_functions.py` 1377-1456
@@ -115,23 +122,31 @@ structure World where
   avail : Loc → Bool
   norm : Req → Loc
 
+/-- ghost record of what reached the C library, in call order: a `setlocale(LC_COLLATE, name)`
+*set* request with its result, or a `strcoll`/`strxfrm` call made by a manager that wants the
+locale `want` while `LC_COLLATE` was `was` -/
+inductive LogE where
+  | set (name : Loc) (accepted : Bool)
+  | coll (want was : Loc)
+  deriving DecidableEq, Repr, Inhabited
+
 /-- Process-global state.  `env` = `os.environ`, `dec` = a rendering of `decimal.getcontext()`:
-nothing in the model writes them (frame); `log` is a ghost record of the C-level `setlocale`
-*set* requests `(name, accepted)` in call order, compared with the stub's record by the harness. -/
+nothing in the model writes them (frame); `log` is compared with the stub's record by the
+harness. -/
 structure State where
   lock : Bool
   lc : Loc
   env : List (String × String)
   dec : String
-  log : List (Loc × Bool)
+  log : List LogE
   deriving DecidableEq, Repr, Inhabited
 
 /-- C `setlocale(LC_COLLATE, name)`: `none` = `locale.Error`, nothing changed (ISO C 7.11.1.1) -/
 def setloc (w : World) (σ : State) (n : Loc) : Option State :=
-  if w.avail n then some { σ with lc := n, log := σ.log ++ [(n, true)] } else none
+  if w.avail n then some { σ with lc := n, log := σ.log ++ [.set n true] } else none
 
 /-- the state after a *rejected* request: only the ghost log grows -/
-def logFail (σ : State) (n : Loc) : State := { σ with log := σ.log ++ [(n, false)] }
+def logFail (σ : State) (n : Loc) : State := { σ with log := σ.log ++ [.set n false] }
 
 /-- outcome of running a piece of code: normal return, exception, or blocked forever
 (`Lock.acquire()` on a lock that nobody will release — the harness observes this as `HANG`) -/
@@ -141,26 +156,77 @@ inductive Res (α : Type) where
   | stuck (σ : State)
   deriving Repr
 
-/-! ## `__enter__` / `__exit__` (sequential reading: one thread) -/
+/-! ## `__enter__` and the comparison bracket (sequential reading: one thread) -/
 
-/-- `CollationManager.__enter__` (fixed tree).  Returns `_current_lc_collate` (`none` when no
-locale switching takes place).
+/-- leave a `with _locale_collate_lock:` block that switched the locale: restore `saved`
+(a failing restore raises `locale.Error` instead of the pending result), release -/
+def leave (w : World) (saved : Loc) {α : Type} (pending : Except Err α) (σ : State) : Res α :=
+  match setloc w σ saved with
+  | some σ' =>
+    match pending with
+    | .ok a => .ok a { σ' with lock := false }
+    | .error e => .err e { σ' with lock := false }
+  | none => .err .localeError { logFail σ saved with lock := false }
+
+/-- `CollationManager.__enter__` (tree with fix-c19-2).  Returns `_effective_lc_collate`
+(`none` when the collation is not locale based).
 
 ```
 if self.lc_collate is not None:
-    _locale_collate_lock.acquire()                                  -- blocks if held
-    self._current_lc_collate = locale.setlocale(LC_COLLATE, None)   -- exact current name
-    try:
-        try:    locale.setlocale(LC_COLLATE, self.lc_collate)       -- failure point 1
+    with _locale_collate_lock:                                      -- blocks if held
+        current = locale.setlocale(LC_COLLATE, None)
+        try:
+            try:    locale.setlocale(LC_COLLATE, self.lc_collate);  eff = self.lc_collate
+            except locale.Error:
+                if not self.fallback: raise
+                locale.setlocale(LC_COLLATE, 'en_US.UTF-8');        eff = 'en_US.UTF-8'
         except locale.Error:
-            if not self.fallback: raise
-            locale.setlocale(LC_COLLATE, 'en_US.UTF-8')             -- failure point 2
-    except locale.Error:
-        self._current_lc_collate = None
-        _locale_collate_lock.release()
-        raise xpath_error('FOCH0002', ...)
+            raise xpath_error('FOCH0002', ...)                      -- nothing was changed
+        else:
+            locale.setlocale(LC_COLLATE, current)                   -- restore at once
 return self
 ``` -/
+def probe (w : World) (m : Mgr) (σ : State) : Res (Option Loc) :=
+  match m.lc with
+  | none => .ok none σ
+  | some req =>
+    if σ.lock then .stuck σ
+    else
+      let σ1 := { σ with lock := true }
+      let saved := σ1.lc
+      match setloc w σ1 (w.norm req) with
+      | some σ2 => leave w saved (.ok (some (w.norm req))) σ2
+      | none =>
+        let σ1' := logFail σ1 (w.norm req)
+        if m.fallback then
+          match setloc w σ1' enUS with
+          | some σ2 => leave w saved (.ok (some enUS)) σ2
+          | none => .err .FOCH0002 { logFail σ1' enUS with lock := false }
+        else .err .FOCH0002 { σ1' with lock := false }
+
+/-- `CollationManager._locale_call(func, *args)` — one `strcoll` / `strxfrm` of a locale based
+manager whose effective locale is `eff`:
+```
+with _locale_collate_lock:
+    current = locale.setlocale(LC_COLLATE, None)
+    locale.setlocale(LC_COLLATE, self._effective_lc_collate)        -- before the try
+    try:     return func(*args)
+    finally: locale.setlocale(LC_COLLATE, current)
+``` -/
+def useLoc (w : World) (eff : Loc) (σ : State) : Res Unit :=
+  if σ.lock then .stuck σ
+  else
+    let σ1 := { σ with lock := true }
+    let saved := σ1.lc
+    match setloc w σ1 eff with
+    | none => .err .localeError { logFail σ1 eff with lock := false }
+    | some σ2 => leave w saved (.ok ()) { σ2 with log := σ2.log ++ [.coll eff σ2.lc] }
+
+/-! ## The earlier protocols — kept as checked records of F19 / F19c / F19b -/
+
+namespace Scoped
+/-- `__enter__` of the tree with fix-c19 but before fix-c19-2: lock and locale are kept for the
+whole `with` block (returned: the saved name, restored by `__exit__`) -/
 def enter (w : World) (m : Mgr) (σ : State) : Res (Option Loc) :=
   match m.lc with
   | none => .ok none σ
@@ -178,30 +244,12 @@ def enter (w : World) (m : Mgr) (σ : State) : Res (Option Loc) :=
           | some σ2 => .ok (some saved) σ2
           | none => .err .FOCH0002 { logFail σ1' enUS with lock := false }
         else .err .FOCH0002 { σ1' with lock := false }
+end Scoped
 
-/-- `CollationManager.__exit__`:
-```
-if self._current_lc_collate is not None:
-    locale.setlocale(LC_COLLATE, self._current_lc_collate)          -- failure point 3
-    self._current_lc_collate = None
-    _locale_collate_lock.release()
-```
-(a failing restore lets `locale.Error` escape *before* the release — kept in the model; the
-theorems show it cannot happen when the initial locale is one that `setlocale` accepts) -/
-def exit (w : World) (saved : Option Loc) (σ : State) : Res Unit :=
-  match saved with
-  | none => .ok () σ
-  | some s =>
-    match setloc w σ s with
-    | some σ' => .ok () { σ' with lock := false }
-    | none => .err .localeError (logFail σ s)
-
-/-! ## The pinned tree (before the two `fix:` commits) — kept as a checked record of F19 / F19c
-
-`__enter__` saved `locale.getlocale(LC_COLLATE)` — a parsed and normalised `(language, encoding)`
-pair — and let a failing fallback `setlocale` escape.  `rt n` is the name that
-`setlocale(LC_COLLATE, getlocale())` asks for when the current name is `n` (`none`: `getlocale`
-raises `ValueError: unknown locale`). -/
+/-! The pinned tree (before fix-c19): `__enter__` saved `locale.getlocale(LC_COLLATE)` — a parsed
+and normalised `(language, encoding)` pair — and let a failing fallback `setlocale` escape.
+`rt n` is the name that `setlocale(LC_COLLATE, getlocale())` asks for when the current name is
+`n` (`none`: `getlocale` raises `ValueError: unknown locale`). -/
 namespace Pinned
 
 def enter (w : World) (rt : Loc → Option Loc) (m : Mgr) (σ : State) : Res (Option Loc) :=
@@ -228,56 +276,62 @@ end Pinned
 
 /-! ## Evaluations and histories -/
 
-/-- One collation-using evaluation: `with CollationManager(collation, self) as manager: body`.
-`mk` is the result of `__init__` (`parseColl` of the collation argument), `inner` the
-collation-using evaluations performed by the body *inside* the `with` block, in order, and
-`raises = some c` makes the body raise (after the inner evaluations) an error tagged `c`. -/
+/-- One collation-using evaluation `with CollationManager(collation, self) as manager: body`, or
+one comparison made by the manager of the enclosing evaluation.
+`call mk body raises`: `mk` is the result of `__init__` (`parseColl` of the collation argument);
+`body` what happens inside the block, in order — comparisons (`cmp`) by this manager and further
+collation-using evaluations, to any depth; `raises = some c` makes the body raise an error tagged
+`c` at its end.  `cmp`: one `strcoll`/`strxfrm` call of the enclosing manager. -/
 inductive Ev where
-  | call (mk : Except Err Mgr) (inner : List Ev) (raises : Option Nat)
+  | call (mk : Except Err Mgr) (body : List Ev) (raises : Option Nat)
+  | cmp
   deriving Inhabited
 
-/-- outcome of one top-level evaluation as seen by the caller -/
+/-- outcome of one evaluation as seen by its caller -/
 inductive Out where
   | ok
   | err (e : Err)
   deriving DecidableEq, Repr, Inhabited
 
-/-- run `exit` in the `finally` position: its exception (if any) replaces the pending outcome -/
-def finish (w : World) (saved : Option Loc) (pending : Out) (σ : State) : Res Out :=
-  match exit w saved σ with
-  | .ok _ σ' => .ok pending σ'
-  | .err e σ' => .ok (.err e) σ'
-  | .stuck σ' => .stuck σ'
-
 mutual
-/-- `Res Out`: `.ok out σ` — the evaluation returned to its caller with outcome `out` (a value or
-an exception) in state `σ`;  `.stuck σ` — it never returns (blocked in `acquire` in state `σ`).  (`.err` is not produced.) -/
-def evalEv (w : World) : Ev → State → Res Out
-  | .call mk inner raises, σ =>
+/-- `evalEv w encl ev σ`: `encl` = effective locale of the enclosing manager (`none`: no enclosing
+manager, or one that is not locale based — its comparisons do not touch the C library).
+`.ok out σ'` — returned to the caller with outcome `out` (value or exception) in state `σ'`;
+`.stuck σ'` — never returns (blocked in `acquire`).  (`.err` is not produced.) -/
+def evalEv (w : World) (encl : Option Loc) : Ev → State → Res Out
+  | .cmp, σ =>
+    match encl with
+    | none => .ok .ok σ
+    | some eff =>
+      match useLoc w eff σ with
+      | .ok _ σ' => .ok .ok σ'
+      | .err e σ' => .ok (.err e) σ'
+      | .stuck σ' => .stuck σ'
+  | .call mk body raises, σ =>
     match mk with
     | .error e => .ok (.err e) σ
     | .ok m =>
-      match enter w m σ with
+      match probe w m σ with
       | .stuck σ' => .stuck σ'
       | .err e σ' => .ok (.err e) σ'
-      | .ok saved σ1 =>
-        match evalEvs w inner σ1 with
+      | .ok eff σ1 =>
+        match evalEvs w eff body σ1 with
         | .stuck σ' => .stuck σ'
-        | .err e σ2 => finish w saved (.err e) σ2
+        | .err e σ2 => .ok (.err e) σ2
         | .ok _ σ2 =>
           match raises with
-          | some c => finish w saved (.err (.body c)) σ2
-          | none => finish w saved .ok σ2
-/-- the body's inner evaluations in sequence; the first exception aborts the rest and propagates
+          | some c => .ok (.err (.body c)) σ2
+          | none => .ok .ok σ2
+/-- the steps of a body in sequence; the first exception aborts the rest and propagates
 (`.err`), `.ok` = all of them returned values -/
-def evalEvs (w : World) : List Ev → State → Res Unit
+def evalEvs (w : World) (encl : Option Loc) : List Ev → State → Res Unit
   | [], σ => .ok () σ
   | e :: es, σ =>
-    match evalEv w e σ with
+    match evalEv w encl e σ with
     | .stuck σ' => .stuck σ'
     | .err x σ' => .err x σ'
     | .ok (.err x) σ' => .err x σ'
-    | .ok .ok σ' => evalEvs w es σ'
+    | .ok .ok σ' => evalEvs w encl es σ'
 end
 
 /-- what the harness observes after each top-level evaluation -/
@@ -292,7 +346,7 @@ the caller.  A stuck evaluation ends the history (the thread never comes back). 
 def runHist (w : World) : List Ev → State → List Obs × Option State
   | [], σ => ([], some σ)
   | e :: es, σ =>
-    match evalEv w e σ with
+    match evalEv w none e σ with
     | .ok out σ' =>
       let (os, fin) := runHist w es σ'
       (⟨some out, σ'.lock, σ'.lc⟩ :: os, fin)
@@ -301,24 +355,102 @@ def runHist (w : World) : List Ev → State → List Obs × Option State
       (⟨some (.err x), σ'.lock, σ'.lc⟩ :: os, fin)
     | .stuck σ' => ([⟨none, σ'.lock, σ'.lc⟩], none)
 
-/-- does the manager switch the locale (and therefore take the lock)? -/
-def usesLocale : Except Err Mgr → Bool
-  | .ok m => m.lc.isSome
-  | .error _ => false
+/-! ## An evaluation tree as a sequence of brackets
+
+Whether a probe succeeds depends on the installed locales only, never on the current state, so
+the control flow of a tree — and with it the exact sequence of critical sections ("brackets") it
+performs — is a function of the tree and the world. -/
+
+/-- one critical section on the shared state -/
+inductive Br where
+  | probe (req : Req) (fb : Bool)     -- `__enter__` of a locale based manager
+  | use (eff : Loc)                   -- one `strcoll`/`strxfrm` through `_locale_call`
+  deriving DecidableEq, Repr, Inhabited
+
+/-- effective locale a manager ends up with (`none`: not locale based, or unsupported) -/
+def Mgr.effective (w : World) (m : Mgr) : Option Loc :=
+  match m.lc with
+  | none => none
+  | some req =>
+    if w.avail (w.norm req) then some (w.norm req)
+    else if m.fallback && w.avail enUS then some enUS
+    else none
+
+/-- does `__enter__` of this manager succeed? -/
+def Mgr.supported (w : World) (m : Mgr) : Bool :=
+  m.lc.isNone || (m.effective w).isSome
+
+/-- what a single bracket returns, from a clean state -/
+def Br.expected (w : World) : Br → Out
+  | .probe req fb => if (Mgr.effective w ⟨some req, fb⟩).isSome then .ok else .err .FOCH0002
+  | .use eff => if w.avail eff then .ok else .err .localeError
 
 mutual
-/-- `nestFree held ev`: no locale-switching scope is entered while another one is open
-(`held` = one is already open around `ev`) -/
-def nestFree (held : Bool) : Ev → Bool
-  | .call mk inner _ => !(held && usesLocale mk) && nestFreeL (held || usesLocale mk) inner
-def nestFreeL (held : Bool) : List Ev → Bool
-  | [] => true
-  | e :: es => nestFree held e && nestFreeL held es
+/-- the outcome of a tree as a function of the tree and the world -/
+def outcome (w : World) (encl : Option Loc) : Ev → Out
+  | .cmp => match encl with
+    | none => .ok
+    | some eff => Br.expected w (.use eff)
+  | .call mk body raises =>
+    match mk with
+    | .error e => .err e
+    | .ok m =>
+      if m.supported w then
+        match outcomeL w (m.effective w) body with
+        | .err e => .err e
+        | .ok => match raises with
+          | some c => .err (.body c)
+          | none => .ok
+      else .err .FOCH0002
+def outcomeL (w : World) (encl : Option Loc) : List Ev → Out
+  | [] => .ok
+  | e :: es => match outcome w encl e with
+    | .err x => .err x
+    | .ok => outcomeL w encl es
 end
 
-/-- a flat evaluation (DESIGN.md's notion of a history element): nothing nested in the body -/
-def Ev.flat : Ev → Bool
-  | .call _ inner _ => inner.isEmpty
+/-- the probe bracket of `__enter__` (none for a manager that is not locale based) -/
+def Mgr.probeBr (m : Mgr) : List Br :=
+  match m.lc with
+  | some req => [.probe req m.fallback]
+  | none => []
+
+mutual
+/-- the brackets a tree performs, in order -/
+def compile (w : World) (encl : Option Loc) : Ev → List Br
+  | .cmp => match encl with
+    | none => []
+    | some eff => [.use eff]
+  | .call mk body _ =>
+    match mk with
+    | .error _ => []
+    | .ok m =>
+      m.probeBr ++ (if m.supported w then compileL w (m.effective w) body else [])
+def compileL (w : World) (encl : Option Loc) : List Ev → List Br
+  | [] => []
+  | e :: es => compile w encl e ++
+      (match outcome w encl e with | .ok => compileL w encl es | .err _ => [])
+end
+
+/-- run one bracket sequentially -/
+def runBr (w : World) (b : Br) (σ : State) : Res Unit :=
+  match b with
+  | .probe req fb =>
+    match probe w ⟨some req, fb⟩ σ with
+    | .ok _ σ' => .ok () σ'
+    | .err e σ' => .err e σ'
+    | .stuck σ' => .stuck σ'
+  | .use eff => useLoc w eff σ
+
+/-- run brackets one after the other, exceptions ignored (the control flow is already in the
+list); `none` = blocked -/
+def runBrs (w : World) : List Br → State → Option State
+  | [], σ => some σ
+  | b :: bs, σ =>
+    match runBr w b σ with
+    | .ok _ σ' => runBrs w bs σ'
+    | .err _ σ' => runBrs w bs σ'
+    | .stuck _ => none
 
 /-! ## `fn:environment-variable`, `fn:available-environment-variables` (XPath 3.0+) -/
 
@@ -416,55 +548,369 @@ def Doc.declaresEntity (d : Doc) : Bool :=
   | some (_, decls) => decls.any Decl.forbiddenDecl
   | none => false
 
-/-! ## Threads: small-step interleaving semantics of N flat evaluation programs -/
+/-! ## The entity gate on the text itself
+
+`XmlText.scanProlog` reads the characters of the argument of `fn:parse-xml` the way expat does up
+to the first start tag: XML declaration, comments, PIs, white space, the DOCTYPE declaration with
+its external identifier and internal subset (entity / element / attlist / notation declarations,
+comments, PIs, parameter-entity references), quoted literals honoured.  It stops at the first
+ill-formed construct, remembering what it had seen — which is what decides whether
+`SafeExpatParser` raises before the syntax error is met.  Not a validating parser: names are any
+run of name characters, element/attlist/notation declarations are skipped up to their `>`. -/
+namespace XmlText
+
+def isWs (c : Char) : Bool := c == ' ' || c == '\t' || c == '\n' || c == '\r'
+
+def skipWs (s : List Char) : List Char := s.dropWhile isWs
+
+/-- `some rest` if `s` starts with `p` -/
+def stripPrefix : List Char → List Char → Option (List Char)
+  | [], s => some s
+  | _ :: _, [] => none
+  | p :: ps, c :: cs => if p == c then stripPrefix ps cs else none
+
+/-- the text after the first occurrence of `pat` -/
+def after (pat : List Char) : List Char → Option (List Char)
+  | [] => if pat.isEmpty then some [] else none
+  | c :: cs =>
+    match stripPrefix pat (c :: cs) with
+    | some r => some r
+    | none => after pat cs
+
+/-- the text before the first occurrence of `pat`, and the text after it -/
+def splitAt (pat : List Char) : List Char → Option (List Char × List Char)
+  | [] => if pat.isEmpty then some ([], []) else none
+  | c :: cs =>
+    match stripPrefix pat (c :: cs) with
+    | some r => some ([], r)
+    | none => (splitAt pat cs).map fun (a, b) => (c :: a, b)
+
+/-- the text after a comment whose `<!--` has been consumed: the first `--` must be the closing
+`-->` (XML 1.0 §2.5: `--` must not occur within comments) -/
+def afterComment (s : List Char) : Option (List Char) :=
+  (after "--".toList s).bind (stripPrefix ['>'])
+
+def isNameChar (c : Char) : Bool :=
+  c.isAlphanum || c == '_' || c == '-' || c == '.' || c == ':' || c.toNat ≥ 128
+
+def takeName (s : List Char) : List Char × List Char := s.span isNameChar
+
+/-- a quoted literal `"…"` or `'…'`: (content, rest) -/
+def quoted : List Char → Option (List Char × List Char)
+  | '"' :: cs => splitAt ['"'] cs
+  | '\'' :: cs => splitAt ['\''] cs
+  | _ => none
+
+/-- optional `SYSTEM "…"` / `PUBLIC "…" "…"` after white space: (present, rest) -/
+def externalId (s : List Char) : Option (Bool × List Char) :=
+  let s := skipWs s
+  match stripPrefix "SYSTEM".toList s with
+  | some r => (quoted (skipWs r)).map fun (_, r') => (true, r')
+  | none =>
+    match stripPrefix "PUBLIC".toList s with
+    | some r => do
+      let (_, r1) ← quoted (skipWs r)
+      let (_, r2) ← quoted (skipWs r1)
+      pure (true, r2)
+    | none => some (false, s)
+
+/-- skip a declaration body up to its closing `>`, honouring quoted literals -/
+def skipDecl : Nat → List Char → Option (List Char)
+  | 0, _ => none
+  | _ + 1, [] => none
+  | _ + 1, '>' :: cs => some cs
+  | f + 1, '"' :: cs => (after ['"'] cs).bind (skipDecl f)
+  | f + 1, '\'' :: cs => (after ['\''] cs).bind (skipDecl f)
+  | f + 1, _ :: cs => skipDecl f cs
+
+/-- `<!ENTITY` already consumed: the declaration and the rest -/
+def entityDecl (s : List Char) : Option (Decl × List Char) := do
+  let s := skipWs s
+  let (param, s) := match s with
+    | '%' :: r => (true, skipWs r)
+    | _ => (false, s)
+  let (name, s) := takeName s
+  if name.isEmpty then none
+  let s := skipWs s
+  match quoted s with
+  | some (v, r) =>
+    let r ← stripPrefix ['>'] (skipWs r)
+    pure (if param then .paramEntity (String.ofList name) else .entity (String.ofList name) (String.ofList v), r)
+  | none =>
+    let (ext, r) ← externalId s
+    if !ext then none
+    let r := skipWs r
+    match stripPrefix "NDATA".toList r with
+    | some r' =>
+      let (n, r'') := takeName (skipWs r')
+      if n.isEmpty then none
+      let r3 ← stripPrefix ['>'] (skipWs r'')
+      pure (.unparsed (String.ofList name), r3)
+    | none =>
+      let r3 ← stripPrefix ['>'] r
+      pure (if param then .paramEntity (String.ofList name) else .extEntity (String.ofList name), r3)
+
+/-- the internal subset after `[`: the declarations read so far, and `some rest` after the
+closing `]` if it was reached without a syntax error -/
+def intSubset : Nat → List Char → List Decl → List Decl × Option (List Char)
+  | 0, _, acc => (acc.reverse, none)
+  | f + 1, s, acc =>
+    let s := skipWs s
+    match s with
+    | ']' :: r => (acc.reverse, some r)
+    | '%' :: r =>                       -- parameter-entity reference `%name;`
+      let (n, r') := takeName r
+      match r' with
+      | ';' :: r'' => if n.isEmpty then (acc.reverse, none) else intSubset f r'' acc
+      | _ => (acc.reverse, none)
+    | _ =>
+      match stripPrefix "<!--".toList s with
+      | some r => match afterComment r with
+        | some r' => intSubset f r' (.comment :: acc)
+        | none => (acc.reverse, none)
+      | none =>
+      match stripPrefix "<?".toList s with
+      | some r => match after "?>".toList r with
+        | some r' => intSubset f r' (.pi :: acc)
+        | none => (acc.reverse, none)
+      | none =>
+      match stripPrefix "<!ENTITY".toList s with
+      | some r => match entityDecl r with
+        | some (d, r') => intSubset f r' (d :: acc)
+        | none => (acc.reverse, none)
+      | none =>
+      match stripPrefix "<!ELEMENT".toList s with
+      | some r => match skipDecl r.length r with
+        | some r' => intSubset f r' (.element :: acc)
+        | none => (acc.reverse, none)
+      | none =>
+      match stripPrefix "<!ATTLIST".toList s with
+      | some r => match skipDecl r.length r with
+        | some r' => intSubset f r' (.attlist :: acc)
+        | none => (acc.reverse, none)
+      | none =>
+      match stripPrefix "<!NOTATION".toList s with
+      | some r => match skipDecl r.length r with
+        | some r' => intSubset f r' (.notation :: acc)
+        | none => (acc.reverse, none)
+      | none => (acc.reverse, none)
+
+/-- what the scan of the prolog found -/
+structure Prolog where
+  standalone : Bool                      -- the XML declaration says `standalone="yes"`
+  xmlDecl : Bool
+  leading : Nat                          -- comments / PIs before the DOCTYPE (or before the root)
+  doctype : Option (Bool × List Decl)    -- external id present, declarations read
+  complete : Bool                        -- the DOCTYPE declaration was closed by `>` without error
+  rest : Option (List Char)              -- text from the root element's `<` on, if reached
+  deriving Repr
+
+/-- `<!DOCTYPE` already consumed -/
+def doctypeDecl (s : List Char) : (Bool × List Decl) × Option (List Char) :=
+  let (name, s1) := takeName (skipWs s)
+  if name.isEmpty then ((false, []), none) else
+  match externalId s1 with
+  | none => ((false, []), none)
+  | some (ext, s2) =>
+    let s3 := skipWs s2
+    match s3 with
+    | '[' :: r =>
+      let (decls, rest) := intSubset (r.length + 1) r []
+      match rest with
+      | none => ((ext, decls), none)
+      | some r' => ((ext, decls), stripPrefix ['>'] (skipWs r'))
+    | '>' :: r => ((ext, []), some r)
+    | _ => ((ext, []), none)
+
+/-- Misc* (doctypedecl Misc*)? up to the root element -/
+def misc : Nat → List Char → Nat → Option (Bool × List Decl) → Bool → Bool → Prolog
+  | 0, _, n, dt, c, xd => ⟨false, xd, n, dt, c, none⟩
+  | f + 1, s, n, dt, c, xd =>
+    let s := skipWs s
+    match stripPrefix "<!--".toList s with
+    | some r => match afterComment r with
+      | some r' => misc f r' (if dt.isNone then n + 1 else n) dt c xd
+      | none => ⟨false, xd, n, dt, c, none⟩
+    | none =>
+    match stripPrefix "<?".toList s with
+    | some r =>
+      -- a PI whose target is `xml` (any case) is an XML declaration out of place: a syntax error
+      if ((takeName r).1.map Char.toLower) == "xml".toList then ⟨false, xd, n, dt, c, none⟩ else
+      match after "?>".toList r with
+      | some r' => misc f r' (if dt.isNone then n + 1 else n) dt c xd
+      | none => ⟨false, xd, n, dt, c, none⟩
+    | none =>
+    match stripPrefix "<!DOCTYPE".toList s with
+    | some r =>
+      if dt.isSome then ⟨false, xd, n, dt, c, none⟩ else
+      match doctypeDecl r with
+      | (d, some r') => misc f r' n (some d) true xd
+      | (d, none) => ⟨false, xd, n, some d, false, none⟩
+    | none =>
+    match s with
+    | '<' :: _ => ⟨false, xd, n, dt, c, some s⟩
+    | _ => ⟨false, xd, n, dt, c, none⟩
+
+/-- the whole prolog: optional XML declaration (only at the very start; `version` comes first and
+is mandatory, XML 1.0 §2.8), then `misc` -/
+def scanProlog (s : List Char) : Prolog :=
+  match stripPrefix "<?xml".toList s with
+  | some (c :: r) =>
+    if isWs c then
+      match splitAt "?>".toList r with
+      | some (decl, r') =>
+        if (stripPrefix "version".toList (skipWs decl)).isNone then ⟨false, true, 0, none, false, none⟩ else
+        let sa := ((splitAt "standalone".toList decl).bind fun (_, t) => splitAt "yes".toList t).isSome
+        { misc (r'.length + 1) r' 0 none false true with standalone := sa }
+      | none => ⟨false, true, 0, none, false, none⟩
+    else misc (s.length + 1) s 0 none false false
+  | _ => misc (s.length + 1) s 0 none false false
+
+/-- does `SafeExpatParser` raise on this text?  An entity declaration that was read — even when a
+syntax error follows — or an external identifier on a DOCTYPE declaration that was completed
+(expat asks for the external subset unless the document is `standalone="yes"`) -/
+def Prolog.forbidden (p : Prolog) : Bool :=
+  match p.doctype with
+  | none => false
+  | some (ext, decls) => decls.any Decl.forbiddenDecl || (ext && p.complete && !p.standalone)
+
+/-- value of a character / predefined reference body (`lt`, `#65`, `#x41`) -/
+def predefValue (n : List Char) : Option Char :=
+  match n with
+  | ['l', 't'] => some '<'
+  | ['g', 't'] => some '>'
+  | ['a', 'm', 'p'] => some '&'
+  | ['q', 'u', 'o', 't'] => some '"'
+  | ['a', 'p', 'o', 's'] => some '\''
+  | '#' :: 'x' :: h =>
+    (h.foldl (fun acc c => acc.bind fun a =>
+      if c.isDigit then some (a * 16 + (c.toNat - 48))
+      else if 'a' ≤ c ∧ c ≤ 'f' then some (a * 16 + (c.toNat - 87))
+      else if 'A' ≤ c ∧ c ≤ 'F' then some (a * 16 + (c.toNat - 55)) else none) (some 0)).map Char.ofNat
+  | '#' :: d => (String.ofList d).toNat?.map Char.ofNat
+  | _ => none
+
+/-- after the root element only comments, PIs and white space may follow -/
+def trailing : Nat → List Char → Bool
+  | 0, _ => false
+  | f + 1, s =>
+    match skipWs s with
+    | [] => true
+    | s' =>
+      match stripPrefix "<!--".toList s' with
+      | some r => match afterComment r with
+        | some r' => trailing f r'
+        | none => false
+      | none =>
+        match stripPrefix "<?".toList s' with
+        | some r => match after "?>".toList r with
+          | some r' => trailing f r'
+          | none => false
+        | none => false
+
+/-- content of the root element `name` up to and including its end tag, then `trailing`: text and
+references (child elements are outside the modelled documents) -/
+def content (name : List Char) : Nat → List Char → List Item → Option (List Item)
+  | 0, _, _ => none
+  | f + 1, s, acc =>
+    match s with
+    | [] => none
+    | '<' :: '/' :: r =>
+      match stripPrefix name r with
+      | none => none
+      | some r1 =>
+        match stripPrefix ['>'] (skipWs r1) with
+        | some r2 => if trailing (r2.length + 1) r2 then some acc.reverse else none
+        | none => none
+    | '<' :: _ => none
+    | '&' :: r =>
+      match splitAt [';'] r with
+      | none => none
+      | some (n, r') =>
+        match predefValue n with
+        | some c => content name f r' (.predef (String.ofList [c]) :: acc)
+        | none =>
+          if n.all isNameChar && !n.isEmpty then content name f r' (.ref (String.ofList n) :: acc) else none
+    | _ =>
+      let (t, r) := s.span fun c => c != '<' && c != '&'
+      content name f r (.text (String.ofList t) :: acc)
+
+/-- the document the text denotes, when the prolog is well formed and the root element has the
+modelled shape `<name>content</name>` -/
+def parseText (s : List Char) : Option Doc :=
+  let p := scanProlog s
+  match p.rest with
+  | none => none
+  | some r =>
+    if p.doctype.isSome && !p.complete then none else
+    match r with
+    | '<' :: r1 =>
+      let (name, r2) := takeName r1
+      if name.isEmpty then none else
+      match stripPrefix ['>'] (skipWs r2) with
+      | none => none
+      | some r3 => (content name (r3.length + 1) r3 []).map fun items => ⟨p.xmlDecl, p.leading, p.doctype, items⟩
+    | _ => none
+
+end XmlText
+
+/-- `fn:parse-xml` on the text: `defuse_xml` raises iff the scan of the prolog met an entity
+declaration (or completed a DOCTYPE with an external identifier); otherwise the text must parse -/
+def parseXmlText (defuseFlag : Bool) (s : String) : Except XErr String :=
+  let cs := s.toList
+  if defuseFlag && (XmlText.scanProlog cs).forbidden then .error .forbidden
+  else match XmlText.parseText cs with
+    | none => .error .FODC0006
+    | some d => parseXml false d
+
+/-- `fn:parse-xml-fragment` on the text (lines 1426-1441): an XML declaration is cut off (its
+`encoding` pseudo-attribute is mandatory, only `version` and `encoding` are allowed — `declOk`),
+then text that after `lstrip()` starts with `<!DOCTYPE` is refused, then as `fn:parse-xml` on the
+remaining text -/
+def parseXmlFragmentText (defuseFlag : Bool) (declOk : Bool) (s : String) : Except XErr String :=
+  let cs := s.toList
+  let body : Option (List Char) :=
+    match XmlText.stripPrefix "<?xml ".toList cs with
+    | some r => if declOk then (XmlText.after "?>".toList r) else none
+    | none => some cs
+  match body with
+  | none => .error .FODC0006
+  | some b =>
+    if (XmlText.stripPrefix "<!DOCTYPE".toList (b.dropWhile fun c => c.isWhitespace)).isSome then .error .FODC0006
+    else parseXmlText defuseFlag (String.ofList b)
+
+/-! ## Threads: small-step interleaving semantics of N bracket programs
+
+A thread's program is a list of brackets (for a thread that evaluates trees: `compileL` of
+them).  Nothing is held between brackets, so the theorems about this semantics hold for *any*
+control structure around them: nested scopes, scopes kept open by suspended generators,
+abandoned generators, exceptions. -/
 
 namespace Thr
 
-/-- one flat evaluation of a thread's program: manager, number of `strcoll`/`strxfrm` calls the
-body makes, whether the body then raises -/
-structure Job where
-  mgr : Mgr
-  uses : Nat
-  raises : Bool
-  deriving DecidableEq, Repr, Inhabited
-
-/-- program counter of a thread inside `with CollationManager(..): body` — each constructor is
-the point *before* one Python-level operation on shared state -/
+/-- program counter of a thread — each constructor is the point *before* one Python-level
+operation on shared state -/
 inductive Pc where
-  | idle                                   -- between evaluations
-  | acquire (req : Req) (fb : Bool)        -- about to call `_locale_collate_lock.acquire()`
-  | query (req : Req) (fb : Bool)          -- holds the lock; about to read the current name
-  | setReq (req : Req) (fb : Bool) (saved : Loc)   -- about to `setlocale(lc_collate)`
-  | setFb (saved : Loc)                    -- about to `setlocale('en_US.UTF-8')`
-  | failRelease                            -- about to release on the FOCH0002 path
-  | body (saved : Option Loc) (target : Option Loc) (left : Nat)  -- inside the body
-  | restore (saved : Loc)                  -- `__exit__`: about to `setlocale(saved)`
-  | release                                -- `__exit__`: about to release
+  | idle                                       -- between brackets
+  | acquire (b : Br)                           -- about to enter `with _locale_collate_lock:`
+  | query (b : Br)                             -- holds the lock; about to read the current name
+  | trySet (b : Br) (saved : Loc)              -- about to `setlocale(requested / effective)`
+  | tryFb (saved : Loc)                        -- probe only: about to `setlocale('en_US.UTF-8')`
+  | call (eff saved : Loc)                     -- use only: about to call `strcoll`/`strxfrm`
+  | restore (saved : Loc) (out : Out)          -- about to `setlocale(saved)`
+  | release (out : Out)                        -- about to leave the `with` block
   deriving DecidableEq, Repr, Inhabited
 
-/-- a thread: its program counter, the job being run, the jobs still to run, and two ghost
-logs: `seen` — for every `strcoll` made inside a locale scope, the pair (locale the scope
-installed, `LC_COLLATE` at that moment); `outs` — the outcome of every finished evaluation -/
+/-- a thread: its program counter, the brackets still to run, and ghost logs: `seen` — for
+every `strcoll`/`strxfrm`, the pair (locale its manager wants, `LC_COLLATE` at that moment);
+`outs` — the result of every finished bracket; `prog` — the whole program (never written) -/
 structure Thread where
   pc : Pc
-  cur : Job
-  todo : List Job
+  todo : List Br
   seen : List (Loc × Loc)
   outs : List Out
-  prog : List Job        -- ghost: the whole program this thread was started with (never written)
+  prog : List Br
   deriving DecidableEq, Repr, Inhabited
-
-/-- what the body of a flat job returns to its caller -/
-def Job.bodyOut (j : Job) : Out := if j.raises then .err (.body 0) else .ok
-
-/-- the outcome of a flat job as a function of the job and the installed locales only (what a
-sequential run gives; `evalEv_flat_expected` in EPV/Lemmas/GlobalsThreads.lean) -/
-def Job.expected (w : World) (j : Job) : Out :=
-  match j.mgr.lc with
-  | none => j.bodyOut
-  | some req =>
-    if w.avail (w.norm req) || (j.mgr.fallback && w.avail enUS) then j.bodyOut
-    else .err .FOCH0002
 
 /-- shared state of the interleaving semantics -/
 structure Shared where
@@ -474,8 +920,7 @@ structure Shared where
 
 /-- does the thread hold `_locale_collate_lock` at this program point? -/
 def Pc.holds : Pc → Bool
-  | .idle | .acquire .. => false
-  | .body saved _ _ => saved.isSome
+  | .idle | .acquire _ => false
   | _ => true
 
 /-- One atomic step of one thread; `none` = the thread is not enabled (finished, or blocked in
@@ -485,42 +930,31 @@ def step (w : World) (s : Shared) (t : Thread) : Option (Shared × Thread) :=
   | .idle =>
     match t.todo with
     | [] => none
-    | j :: js =>
-      match j.mgr.lc with
-      | none => some (s, { t with pc := .body none none j.uses, cur := j, todo := js })
-      | some req => some (s, { t with pc := .acquire req j.mgr.fallback, cur := j, todo := js })
-  | .acquire req fb =>
-    if s.lock then none else some ({ s with lock := true }, { t with pc := .query req fb })
-  | .query req fb => some (s, { t with pc := .setReq req fb s.lc })
-  | .setReq req fb saved =>
+    | b :: bs => some (s, { t with pc := .acquire b, todo := bs })
+  | .acquire b =>
+    if s.lock then none else some ({ s with lock := true }, { t with pc := .query b })
+  | .query b => some (s, { t with pc := .trySet b s.lc })
+  | .trySet (.probe req fb) saved =>
     if w.avail (w.norm req) then
-      some ({ s with lc := w.norm req },
-            { t with pc := .body (some saved) (some (w.norm req)) t.cur.uses })
-    else if fb then some (s, { t with pc := .setFb saved })
-    else some (s, { t with pc := .failRelease })
-  | .setFb saved =>
-    if w.avail enUS then
-      some ({ s with lc := enUS }, { t with pc := .body (some saved) (some enUS) t.cur.uses })
-    else some (s, { t with pc := .failRelease })
-  | .failRelease =>
-    some ({ s with lock := false }, { t with pc := .idle, outs := t.outs ++ [.err .FOCH0002] })
-  | .body saved target (n + 1) =>
-    some (s, { t with pc := .body saved target n,
-                      seen := match target with
-                        | some tg => t.seen ++ [(tg, s.lc)]
-                        | none => t.seen })
-  | .body saved _ 0 =>
-    let out : Out := t.cur.bodyOut
-    match saved with
-    | none => some (s, { t with pc := .idle, outs := t.outs ++ [out] })
-    | some sv => some (s, { t with pc := .restore sv, outs := t.outs ++ [out] })
-  | .restore sv =>
-    if w.avail sv then some ({ s with lc := sv }, { t with pc := .release })
-    else some (s, { t with pc := .idle, outs := t.outs.dropLast ++ [.err .localeError] })
-  | .release => some ({ s with lock := false }, { t with pc := .idle })
+      some ({ s with lc := w.norm req }, { t with pc := .restore saved .ok })
+    else if fb then some (s, { t with pc := .tryFb saved })
+    else some (s, { t with pc := .release (.err .FOCH0002) })
+  | .trySet (.use eff) saved =>
+    if w.avail eff then some ({ s with lc := eff }, { t with pc := .call eff saved })
+    else some (s, { t with pc := .release (.err .localeError) })
+  | .tryFb saved =>
+    if w.avail enUS then some ({ s with lc := enUS }, { t with pc := .restore saved .ok })
+    else some (s, { t with pc := .release (.err .FOCH0002) })
+  | .call eff saved =>
+    some (s, { t with pc := .restore saved .ok, seen := t.seen ++ [(eff, s.lc)] })
+  | .restore saved out =>
+    if w.avail saved then some ({ s with lc := saved }, { t with pc := .release out })
+    else some (s, { t with pc := .release (.err .localeError) })
+  | .release out =>
+    some ({ s with lock := false }, { t with pc := .idle, outs := t.outs ++ [out] })
 
-/-- a thread that has not started: `jobs` to run -/
-def Thread.init (jobs : List Job) : Thread := ⟨.idle, default, jobs, [], [], jobs⟩
+/-- a thread that has not started -/
+def Thread.init (prog : List Br) : Thread := ⟨.idle, prog, [], [], prog⟩
 
 /-- finished = idle with nothing left -/
 def Thread.done (t : Thread) : Bool := t.pc == .idle && t.todo.isEmpty
